@@ -545,6 +545,19 @@ func ruleIntDivSigns(w *World, r *RuleResult) {
 			if len(vals) == 1 && strings.HasPrefix(vals[0], "<written by (*Context).quoSpecials") || len(vals) == 1 && vals[0] == "<none>" {
 				continue
 			}
+			// the DivisionImpossible return delivers the shared NaN, not a quotient
+			if w.allSetsAreNaN(f) {
+				var rest []string
+				for _, v := range vals {
+					if v != "<written by (*Decimal).Set>" {
+						rest = append(rest, v)
+					}
+				}
+				if len(rest) == 0 {
+					continue
+				}
+				vals = rest
+			}
 			n++
 			if len(vals) != 1 || vals[0] != "0" {
 				bad = append(bad, fmt.Sprintf("return at %s: exponent %v", w.instrPos(rt), vals))
@@ -556,4 +569,22 @@ func ruleIntDivSigns(w *World, r *RuleResult) {
 			r.ok(key, w.pos(f.Pos()), "last exponent store before every quotient-delivering return is the constant 0", true)
 		}
 	}
+}
+
+// allSetsAreNaN: every (*Decimal).Set call in f whose destination is f's destination parameter copies the
+// shared NaN (so a value "written by Set" is that NaN).
+func (w *World) allSetsAreNaN(f *ssa.Function) bool {
+	d := ssa.Value(f.Params[destArgIndex(w, f)])
+	n := 0
+	for _, c := range callsIn(f) {
+		call, ok := c.(*ssa.Call)
+		if !ok || w.calleeName(call) != "(*Decimal).Set" || basePtr(call.Common().Args[0]) != d {
+			continue
+		}
+		n++
+		if !w.nanWholeWrite(call, d) {
+			return false
+		}
+	}
+	return n > 0
 }
